@@ -467,8 +467,9 @@ func frameSection(run *hx.Run, rng *hx.Rng) {
 
 	tick("D")
 	// ---- E. authenticated frames carrying hostile snappy streams (real primitives, reader has snappy on)
+	overAlloc := false
 	for _, l := range []uint64{0, 1, 100, 1<<24 - 1, 1 << 24, 1<<24 + 1, 1 << 26, 1 << 28, 1 << 30, 1 << 31, 1<<32 - 1, 1 << 32, 1 << 40, 1<<63 - 1, 1 << 63} {
-		for v := 0; v < 3; v++ {
+		for v := 0; v < 3 && !overAlloc; v++ { // stop at the first over-allocation: the larger declarations would exhaust memory
 			p := prims{preload: rng.Bytes(64), aes: rng.Bytes(32), mac: rng.Bytes(32)}
 			lb := make([]byte, 10)
 			pay := append([]byte{}, lb[:binary.PutUvarint(lb, l)]...)
@@ -502,6 +503,7 @@ func frameSection(run *hx.Run, rng *hx.Rng) {
 				want += l
 			}
 			if used > want {
+				overAlloc = true
 				run.Violate("over-allocation", "rlpxFrameRW.ReadMsg snappy allocation", in,
 					fmt.Sprintf("allocated %d bytes for a %d-byte frame declaring %d decompressed bytes (limit 2^24-1)", used, len(pay), l))
 			}
